@@ -385,6 +385,9 @@ def c18() -> int:
     # the queue spans midnight (run starts three minutes before the end of a day); fleets in use with a public station
     fsx(c, FIFO + ({"midnight": True},), ("hivemc.bundles", "c18", {}), K=4 if quick else 5, H=9 if quick else 11, needs=needs[:1] + ["c18:queue_spans_midnight"])
     fsx(c, FIFO + ({"fleets": True},), ("hivemc.bundles", "c18", {}), K=4 if quick else 5, H=9 if quick else 11, needs=needs[:1])
+    # a queued vehicle whose idle draw empties it to exactly 0.0 while it waits; both plug types taken from the start (two queues at once)
+    fsx(c, FIFO + ({"drain": True},), ("hivemc.bundles", "c18", {}), K=4 if quick else 5, H=9 if quick else 11, needs=needs[:1])
+    fsx(c, FIFO + ({"plugs": ["DCFC", "LEVEL_2"], "l2_busy": True},), ("hivemc.bundles", "c18", {}), K=4, H=6 if quick else 8, needs=needs[:1])
     # a human driver in the queue whose shift ends during the run (his own go-home logic then asks for a dispatch to the station he
     # is queueing at); plug-ins through instructions the LIBRARY generated (drivers) are judged, only the scripted controller's are not
     for k in ((4,) if quick else (2, 3, 4)):
